@@ -29,7 +29,6 @@ Next == \/ \E c \in ChoicePts, p \in Pkgs, f \in BOOLEAN : Add(c, p, f)
         \/ \E c \in ChoicePts, b \in Blockers : AddBlocker(c, b) \/ DropBlocker(c, b)
         \/ \E r \in Restrs : Hardref(r)
         \/ \E pos \in 0..MaxPlan : Backtrack(pos)
-        \/ \E pos \in 0..MaxPlan, stop \in 1..MaxPlan : BacktrackCut(pos, stop)
 Spec == Init /\ [][Next]_st
 Bound == Len(st.plan) <= MaxPlan
 
@@ -41,8 +40,12 @@ InvChoices  == ChoicesAreSlotted(st)
 \* a rollback lands exactly on the state the surviving prefix denotes
 RollbackExact == [][\A pos \in 0..MaxPlan :
                      (pos < Len(st.plan) /\ st' = DoBacktrack(st, pos).s) => st' = Replay(SubSeq(st.plan, 1, pos))]_st
-\* an interrupted rollback lands on the replay of the entries it did not get to
-CutExact == [][\A pos \in 0..MaxPlan, stop \in 1..MaxPlan :
-                (pos < stop /\ stop <= Len(st.plan) /\ st' = DoBacktrackCut(st, pos, stop).s)
-                   => st' = Replay(SubSeq(st.plan, 1, stop))]_st
+(* An interrupted rollback (BacktrackCut) is not a disjunct of Next: by definition
+   DoBacktrackCut(s, pos, stop) = DoBacktrack(s, stop), so every state it reaches is reached by
+   Backtrack(stop) and RollbackExact already says it lands on Replay of the first stop entries.
+   (As a separate disjunct with its own action property it multiplied TLC's work by |pos| x |stop|
+   per transition without adding a state.)  The action is used by PlanState_Sim, so that simulated
+   histories contain interrupted rollbacks, and judged by PlanState_Trace.                          *)
+CutIsBacktrack == \A pos \in 0..MaxPlan, stop \in 1..MaxPlan :
+                    DoBacktrackCut(st, pos, stop) = DoBacktrack(st, stop)
 =========================================================================
